@@ -642,17 +642,57 @@ func c08Pools(c *Ctx, p *Prog, m *Model) {
 	// attribute slice: Put after the emission, emptied, no use afterwards; the pooled objects do not escape
 	pa := p.Global(p.Slog, "poolAttrs")
 	n := 0
-	for _, fn := range p.RepoFuncs() {
-		if p.startupOnly(fn) {
-			continue
-		}
-		var get, put ssa.CallInstruction
+	// acquire / release wrappers: an unexported function, only ever called directly, whose only use of the pool is a
+	// Get whose result it returns, or a Put of (a re-slice of) its parameter; their call sites count as Get / Put
+	directOps := func(fn *ssa.Function) (get, put ssa.CallInstruction) {
 		for _, cs := range callsIn(fn) {
 			if cal := calleeOf(cs); cal != nil && len(cs.Common().Args) > 0 && cs.Common().Args[0] == ssa.Value(pa) {
 				switch cal.String() {
 				case "(*sync.Pool).Get":
 					get = cs
 				case "(*sync.Pool).Put":
+					put = cs
+				}
+			}
+		}
+		return
+	}
+	acquire, release := map[*ssa.Function]bool{}, map[*ssa.Function]bool{}
+	for _, fn := range p.RepoFuncs() {
+		if p.startupOnly(fn) || fn.Object() == nil || fn.Object().Exported() || p.usedAsValue()[fn] || len(p.staticCallers()[fn]) == 0 {
+			continue
+		}
+		get, put := directOps(fn)
+		switch {
+		case get != nil && put == nil:
+			for _, b := range fn.Blocks {
+				if ret, ok := b.Instrs[len(b.Instrs)-1].(*ssa.Return); ok && len(ret.Results) == 1 && get.Value() != nil && dependsOn(ret.Results[0], get.Value()) {
+					acquire[fn] = true
+				}
+			}
+		case put != nil && get == nil:
+			for _, q := range fn.Params {
+				if len(put.Common().Args) > 1 && dependsOn(put.Common().Args[1], q) {
+					release[fn] = true
+				}
+			}
+		}
+	}
+	for _, fn := range p.RepoFuncs() {
+		if p.startupOnly(fn) {
+			continue
+		}
+		if acquire[fn] || release[fn] {
+			r.Ok("R08.3", "poolAttrs:wrapper:"+shortName(fn), p.FuncPos(fn), "acquire/release wrapper of the attribute-slice pool: judged at its call sites")
+			continue
+		}
+		get, put := directOps(fn)
+		for _, cs := range callsIn(fn) {
+			if cal := calleeOf(cs); cal != nil {
+				if acquire[cal] {
+					get = cs
+				}
+				if release[cal] {
 					put = cs
 				}
 			}
